@@ -21,13 +21,16 @@ CHECKS = {
         design="DESIGN.md section 4 (C10)"),
     "C13": dict(
         category="model_checking",
-        technique="SMT string-theory check (z3) of the Aspartix line patterns extracted from the source against the line grammar",
+        technique="SMT check (z3) of what the real readers' source decides: string theory on the Aspartix line patterns against the line grammar, 64-bit bit-vectors on the ICCMA'23 index guards and id arithmetic; both re-extracted from the source on every run",
         text="The acceptance decision of the Aspartix reader for a line is determined by four regular expressions; they are re-extracted "
              "from the current source, translated to SMT-LIB regular expressions and compared with the Aspartix line grammar for every "
-             "ASCII line up to 12 (quick) / 18 (thorough) characters. A satisfiable query is a concrete line, replayed through the real reader.",
-        note="Outside: non-ASCII input, the control flow around the patterns (argument after attack, undeclared argument), the ICCMA'23 "
-             "reader (BufReader::lines / split_whitespace / str::parse: CBMC does not finish at useful buffer sizes; see DESIGN.md). Trusted: z3's string theory, the "
-             "hand-written translation of the regex subset.",
+             "ASCII line up to 12 (quick) / 18 (thorough) characters. A satisfiable query is a concrete line, replayed through the real reader. "
+             "For the ICCMA'23 reader the parse type, match guard, forwarded value and id arithmetic of the attack-line indexes, of read_arg_from_str and of "
+             "the preamble count are re-extracted and decided over every 64-bit token value and every declared size: accepted iff 1 <= index <= N, mapped to id index-1 "
+             "without overflow; counterexamples are replayed through the real Iccma23Reader (a panic counts).",
+        note="Outside: non-ASCII input, the control flow around the patterns (argument after attack, undeclared argument), the tokenisation and line control flow of the ICCMA'23 "
+             "reader (BufReader::lines / split_whitespace / str::parse: CBMC does not finish at useful buffer sizes; see DESIGN.md). Trusted: z3's string and bit-vector theories, the "
+             "hand-written translation of the regex subset and of the Rust integer-expression subset (validated on concrete values against the real reader at every run).",
         design="DESIGN.md section 4 (C13)"),
 }
 
